@@ -241,4 +241,17 @@ PROPS = {
         assumptions=["chain validation is abstracted to 'signed by CA n'; the theorem is about the policy the configuration requests, the mechanism is exercised end to end"],
         explanation="policy theorem c15_policy over an abstract chain-validation relation instantiated with configuration facts regenerated from the source (server client-cert verifier = required+verified, client verifies server against configured roots for name localhost), plus an exhaustive end-to-end run of the 8 identity pairings; X.509 and the handshake are trusted, not proved",
     ),
+    "C12": dict(
+        module="SeliumModel.Props.C12",
+        suites=["e2erec"],
+        level="proof",
+        rule="library publisher / subscriber / replier / requestor over loopback QUIC; the harness cuts the client's QUIC connection with the verif-hooks method (1, 3, 4 and 6 successive outages against budgets of 1-3 attempts, i.e. more outages than one budget) and checks after each outage that traffic sent after recovery is carried; exhaustion: the server is replaced by an impostor with another CA so that every attempt fails, the stream must report too-many-retries; outcomes compared with the Lean retry model; distinct = distinct case lines",
+        trusted_base=COMMON_TRUST + [
+            "quinn reconnect, TLS, re-registration on the server: exercised end to end, not proved",
+            "translator: scope of the backoff iterator in listen()/request()/on_disconnect, poll_replies in on_reconnect, the arms of is_recoverable_error",
+            "modelled by hand: the retry loop (try_reconnect / poll_reconnect)",
+        ],
+        assumptions=["a message handed to the library while the connection is down may be lost with the old stream; the property is about traffic after recovery", "hook: cargo feature verif-hooks (Client::verif_close_connection)"],
+        explanation="",
+    ),
 }
